@@ -1,16 +1,8 @@
 """Checks decided with the output-history specification (OutBuf.tla / OutBuf_Trace.tla):
-C09 (history), C10 (spilling, output side), C20 (static slots), C08 (nearest / range)."""
-import json
-import multiprocessing as mp
-import random
-import re
-import shutil
-import tempfile
-
-from . import tlc
-from .common import jdump, seed
-from .evidence import Evidence, save_replay
+C09 (history); also provides the output-side engine runs of C08, C10 and C20."""
 from .check_sched import finish
+from .evidence import Evidence
+from .script_engine import Engine
 
 CLAUSE = {
     "retained": "C09", "as-unlimited": "C09",
@@ -41,126 +33,43 @@ CONSTANTS MaxLen = {maxlen}
 CHECK_DEADLOCK FALSE
 """
 INVS = ["InvServe", "InvBound", "InvAccounting", "InvGetTotal"]
+ENGINE = Engine("OutBuf", "OutBuf_Trace", "outbuf_run", MC_TMPL, INVS, clause_property, "outbuf-trace")
 
 
-def mc(cfgset, maxlen, maxpub, gaps, variant="ok", invs=INVS, timeout=1800):
-    extra = "VIEW view\n" + "\n".join(f"INVARIANT {i}" for i in invs)
-    return tlc.model_check("OutBuf", MC_TMPL.format(maxlen=maxlen, maxpub=maxpub, gaps=", ".join(map(str, gaps)),
-                                                     cfgset=cfgset, variant=variant, extra=extra), timeout=timeout)
+def P(cfgset, maxlen, maxpub, gaps):
+    return dict(cfgset=cfgset, maxlen=maxlen, maxpub=maxpub, gaps=", ".join(map(str, gaps)))
 
 
-def gen_scripts(cfgset, maxlen, maxpub, gaps, simulate=None, timeout=900):
-    text = MC_TMPL.format(maxlen=maxlen, maxpub=maxpub, gaps=", ".join(map(str, gaps)), cfgset=cfgset,
-                          variant="ok", extra="CONSTRAINT Emit")
-    kw = {}
-    if simulate:
-        kw = dict(simulate=f"num={simulate}", depth=maxlen + 2, seed=seed() + 11)
-    r = tlc.model_check("OutBuf", text, workers=1, timeout=timeout, **kw)
-    scripts, seen = [], set()
-    for m in re.finditer(r'<<"SCRIPT", "((?:[^"\\]|\\.)*)">>', r.out):
-        s = m.group(1).encode().decode("unicode_escape")
-        if s not in seen:
-            seen.add(s)
-            scripts.append(json.loads(s))
-    return scripts, r
-
-
-def _run_one(script):
-    from . import outbuf_run
-    d, w = tempfile.mkdtemp(prefix="fv-mem-"), tempfile.mkdtemp(prefix="fv-cwd-")
-    try:
-        return outbuf_run.run(script, d, w)
-    except Exception as e:  # pylint: disable=broad-except
-        return {"harness_error": f"{type(e).__name__}: {e}", "cfg": script["cfg"]}
-    finally:
-        shutil.rmtree(d, ignore_errors=True)
-        shutil.rmtree(w, ignore_errors=True)
-
-
-# per property: [(cfgset, maxlen, maxpub, gaps)] for MC and for script generation
 PLAN = {
     "C09": dict(
-        mc={"quick": [("two", 9, 5, (2, 3)), ("three", 7, 4, (2, 3))],
-            "thorough": [("two", 11, 6, (1, 2, 3)), ("three", 9, 5, (2, 3)), ("four", 8, 4, (2, 3)), ("one", 12, 7, (1, 2, 3, 4))]},
-        gen={"quick": [("two", 5, 3, (2, 3), None, 6000), ("three", 12, 6, (1, 2, 3, 4), 1500, 3000)],
-             "thorough": [("two", 5, 3, (2, 3), None, None), ("one", 6, 4, (1, 2), None, None),
-                          ("three", 14, 7, (1, 2, 3, 4), 20000, None), ("four", 16, 8, (1, 2, 3, 4), 20000, None)]},
-        neg=[("two", 7, 4, (2, 3), "evict-head", ["InvServe"]), ("two", 7, 4, (2, 3), "no-evict", ["InvBound"])]),
+        mc={"quick": [P("two", 9, 5, (2, 3)), P("three", 7, 4, (2, 3))],
+            "thorough": [P("two", 11, 6, (1, 2, 3)), P("three", 9, 5, (2, 3)), P("four", 8, 4, (2, 3)),
+                         P("one", 12, 7, (1, 2, 3, 4))]},
+        gen={"quick": [(P("two", 5, 3, (2, 3)), None, 6000), (P("three", 12, 6, (1, 2, 3, 4)), 1500, 3000)],
+             "thorough": [(P("two", 5, 3, (2, 3)), None, None), (P("one", 6, 4, (1, 2)), None, None),
+                          (P("three", 14, 7, (1, 2, 3, 4)), 20000, None), (P("four", 16, 8, (1, 2, 3, 4)), 20000, None)]},
+        neg=[(P("two", 7, 4, (2, 3)), "evict-head", ["InvServe"]), (P("two", 7, 4, (2, 3)), "no-evict", ["InvBound"])]),
     "C10": dict(
-        mc={"quick": [("one", 9, 5, (2, 3)), ("two", 8, 4, (2, 3)), ("masked", 7, 4, (2, 3))],
-            "thorough": [("one", 12, 7, (1, 2, 3)), ("two", 10, 5, (2, 3)), ("masked", 9, 5, (2, 3)), ("three", 9, 5, (2, 3))]},
-        gen={"quick": [("one", 6, 4, (2,), None, 4000), ("masked", 5, 3, (2, 3), None, 5000), ("two", 12, 6, (1, 2, 3), 1200, 2500)],
-             "thorough": [("one", 6, 4, (2, 3), None, None), ("masked", 5, 3, (2, 3), None, None),
-                          ("two", 5, 3, (2, 3), None, None), ("three", 14, 7, (1, 2, 3), 20000, None)]},
-        neg=[]),
+        mc={"quick": [P("one", 9, 5, (2, 3)), P("masked", 7, 4, (2, 3))],
+            "thorough": [P("one", 12, 7, (1, 2, 3)), P("two", 10, 5, (2, 3)), P("masked", 9, 5, (2, 3)), P("three", 9, 5, (2, 3))]},
+        gen={"quick": [(P("one", 6, 4, (2,)), None, 2500), (P("masked", 5, 3, (2, 3)), None, 2500),
+                       (P("two", 12, 6, (1, 2, 3)), 800, 1500)],
+             "thorough": [(P("one", 6, 4, (2, 3)), None, None), (P("masked", 5, 3, (2, 3)), None, None),
+                          (P("two", 5, 3, (2, 3)), None, None), (P("three", 14, 7, (1, 2, 3)), 20000, None)]}),
     "C20": dict(
-        mc={"quick": [("static", 7, 3, (2,))], "thorough": [("static", 9, 4, (2,))]},
-        gen={"quick": [("static", 4, 3, (2,), None, 6000)], "thorough": [("static", 5, 3, (2,), None, 120000)]},
-        neg=[]),
+        mc={"quick": [P("static", 7, 3, (2,))], "thorough": [P("static", 9, 4, (2,))]},
+        gen={"quick": [(P("static", 4, 3, (2,)), None, 5000)], "thorough": [(P("static", 5, 3, (2,)), None, 120000)]}),
     "C08": dict(
-        mc={"quick": [("one", 9, 5, (2, 3)), ("two", 8, 4, (2, 3, 4))],
-            "thorough": [("one", 12, 7, (1, 2, 3, 4)), ("two", 10, 5, (2, 3, 4))]},
-        gen={"quick": [("one", 6, 4, (2, 3), None, 6000), ("two", 12, 6, (1, 2, 3, 4), 1200, 2500)],
-             "thorough": [("one", 6, 4, (2, 3), None, None), ("two", 5, 3, (2, 3, 4), None, None),
-                          ("three", 14, 7, (1, 2, 3, 4), 20000, None)]},
-        neg=[]),
+        mc={"quick": [P("one", 9, 5, (2, 3)), P("two", 8, 4, (2, 3, 4))],
+            "thorough": [P("one", 12, 7, (1, 2, 3, 4)), P("two", 10, 5, (2, 3, 4))]},
+        gen={"quick": [(P("one", 6, 4, (2, 3)), None, 4000), (P("two", 12, 6, (1, 2, 3, 4)), 1000, 2000)],
+             "thorough": [(P("one", 6, 4, (2, 3)), None, None), (P("two", 5, 3, (2, 3, 4)), None, None),
+                          (P("three", 14, 7, (1, 2, 3, 4)), 20000, None)]}),
 }
 
 
 def run_engine(pid, tier, ev, violations, machinery):
-    plan = PLAN[pid]
-    rng = random.Random(seed())
-    for cfgset, maxlen, maxpub, gaps in plan["mc"][tier]:
-        r = mc(cfgset, maxlen, maxpub, gaps)
-        ev.add_mc(f"OutBuf/{cfgset}/len{maxlen}/pub{maxpub}", r,
-                  {"CfgSet": cfgset, "MaxLen": maxlen, "MaxPub": maxpub, "Gaps": list(gaps), "invariants": INVS})
-        if not r.ok:
-            path = save_replay(pid, {"kind": "tlc-counterexample", "violated": r.violated, "output": r.out[-6000:]})
-            violations.append((pid, f"design-level: {r.violated} violated in OutBuf.tla", path))
-    for cfgset, maxlen, maxpub, gaps, variant, expect in plan["neg"]:
-        rn = mc(cfgset, maxlen, maxpub, gaps, variant=variant)
-        ev.cov["runs"].append({"kind": "negative-control", "variant": variant, "violated": rn.violated, **rn.summary()})
-        if rn.ok or not set(rn.violated) & set(expect):
-            machinery.append(f"negative control {variant} produced no counterexample for {expect}")
-    scripts = []
-    for cfgset, maxlen, maxpub, gaps, sim, cap in plan["gen"][tier]:
-        got, _ = gen_scripts(cfgset, maxlen, maxpub, gaps, simulate=sim)
-        if not got:
-            machinery.append(f"no scripts generated for {cfgset}")
-        if cap and len(got) > cap:
-            got = rng.sample(got, cap)
-            ev.cov["exhaustive"] = False
-        if sim:
-            ev.cov["exhaustive"] = False
-        scripts += got
-    with mp.Pool(16) as pool:
-        traces = pool.map(_run_one, scripts, chunksize=50)
-    herr = [t for t in traces if "harness_error" in t]
-    if herr:
-        machinery.append(f"{len(herr)} harness errors, first: {herr[0]['harness_error']}")
-        traces = [t for t in traces if "harness_error" not in t]
-    acc, tot, bad, gen, _ = tlc.validate("OutBuf_Trace", traces)
-    ev.add_traces("OutBuf_Trace/" + "+".join(g[0] for g in plan["gen"][tier]), acc, tot, gen)
-    nontrivial = set()
-    for t in traces:
-        if any(e["op"] == "get" and e["res"] == "ok" for e in t["ev"]) and len(t["ev"]) >= 3:
-            nontrivial.add(jdump([t["cfg"], [(e["op"], e["k"], e["t"]) for e in t["ev"]]]))
-    ev.cov["distinct_nontrivial"] += len(nontrivial)
-    ev.cov["rule"] = ("operation scripts generated by TLC from OutBuf.tla (every behaviour up to MaxLen, plus "
-                      "-simulate behaviours), executed on a real Output with real Inputs/adapters; non-trivial = "
-                      "distinct script with at least 3 operations and one served pull")
-    for t in traces[:2]:
-        ev.sample(t)
-    other = {}
-    for k, verdict in sorted(bad.items()):
-        t = traces[k]
-        p = clause_property(verdict, t["cfg"])
-        if p != pid:
-            other[p] = other.get(p, 0) + 1
-            continue
-        path = save_replay(pid, {"kind": "outbuf-trace", "verdict": verdict, "trace": t}) if len(violations) < 10 else "(not saved)"
-        violations.append((pid, f"trace rejected: {verdict} cfg={jdump(t['cfg'])}", path))
-    ev.cov.setdefault("other_property_rejections", {}).update(other)
+    ENGINE.run(pid, tier, PLAN[pid], ev, violations, machinery)
 
 
 def check(pid, tier):
@@ -171,16 +80,4 @@ def check(pid, tier):
 
 
 def replay(pid, path):
-    with open(path) as f:
-        rp = json.load(f)
-    if rp.get("kind") != "outbuf-trace":
-        print(rp.get("output", "")[-3000:])
-        return 0
-    script = {"cfg": rp["trace"]["cfg"], "ops": [{k: e[k] for k in ("op", "k", "t", "id")} for e in rp["trace"]["ev"]]}
-    t = _run_one(script)
-    acc, tot, bad, _, _ = tlc.validate("OutBuf_Trace", [t])
-    if bad:
-        print(f"VIOLATION property={clause_property(bad[0], t['cfg'])} replay={path}  # {bad[0]}")
-        return 1
-    print("replayed trace accepted")
-    return 0
+    return ENGINE.replay(pid, path)
